@@ -16,6 +16,12 @@ SAME_WITHIN = {"source_parameters_encodings", "repeated_sequence_headers", "exte
 PICTURE_NUMBERS = {"start_at_zero": [0, 1, 2, 3, 4, 5, 6, 7], "non_zero_start": list(range(1000, 1008)),
                    "wrap_around": [4294967292, 4294967293, 4294967294, 4294967295, 0, 1, 2, 3],
                    "odd_first_picture": list(range(7, 15))}
+# the source each content-invariant test case is documented to encode: (picture generator, number of frames); the
+# "plain encoding of the same source" has frames x (pictures per frame) pictures - per frame the source generators
+# yield one picture, or two when pictures are fields (C22: generators_wellformed)
+SOURCE_FRAMES = {"padding_data": 2, "absent_next_parse_offset": 2, "concatenated_sequences": 2, "slice_padding_data": 1,
+                 "dangling_bounded_block_data": 1, "slice_prefix_bytes": 1, "slice_size_scaler": 1,
+                 "source_parameters_encodings": 1, "repeated_sequence_headers": 2, "extended_transform_parameters": 1}
 SLOW = {"signal_range", "real_pictures"}   # need the large bundled analyses / natural pictures: thorough tier only
 
 
@@ -196,6 +202,11 @@ def violates(cf, thorough=False, limit=240):
                     if vp != cf["video_parameters"]:
                         return "%s: decoded video parameters differ from the configuration" % tc.name, ncases, skipped
                 decoded.append((tc, out))
+                if gname in SOURCE_FRAMES:
+                    want = SOURCE_FRAMES[gname] * (2 if int(cf["picture_coding_mode"]) == 1 else 1)
+                    if len(out) != want:
+                        return ("%s decodes to %d pictures; the plain encoding of its documented source (%d frame(s)) has %d"
+                                % (tc.name, len(out), SOURCE_FRAMES[gname], want)), ncases, skipped
                 if gname in MIDGRAY:
                     for (p, vp, pcm) in out:
                         for c, (w, h, depth, _) in d.items():
